@@ -68,8 +68,8 @@ def oracle(case):
         k = 2.0 / (fs * S2) if S2 > 0 else 0.0
         Sx = tol.seg_scale(x, D, L, w, cfg["order"])
         Sy = tol.seg_scale(y, D, L, w, cfg["order"])
-        bx[j], by[j] = tol.budget2(L, om, Sx) * k, tol.budget2(L, om, Sy) * k
-        bxy[j] = tol.budget2(L, om, (Sx ** 0.5 * Sy ** 0.5)) * k
+        bx[j], by[j] = tol.budget2(L, om, Sx, len(D)) * k, tol.budget2(L, om, Sy, len(D)) * k
+        bxy[j] = tol.budget2(L, om, (Sx ** 0.5 * Sy ** 0.5), len(D)) * k
         powered[j] = Gxx[j] > 1e3 * bx[j] and Gyy[j] > 1e3 * by[j]
 
     def first(mask):
